@@ -14,7 +14,8 @@ LEVEL = "translation_validation"
 RULE = ("SING family: sums/products of x/(exp(x)-1), sin(x)/x, (x-a)/(x-a), shifted/scaled copies, 0-3 removable singularities in "
         "1-2 states, plus non-removable 1/x and singularity-free expressions; the module emitted for ode.remove_singularities() is "
         "compared with the module of the original: equal wherever the original is defined (solver, all reals), equal to the stated "
-        "limit on each singular point with all other inputs free; non-trivial = at least one removable singularity")
+        "limit on each singular point with all other inputs free; SINGDERIV: every single-point entry again with the singular "
+        "expression written directly as dx_dt (rhs slot checked on the point); non-trivial = at least one removable singularity")
 FUNCTIONS = ["Assignment.singularities", "atoms.remove_singularities", "Component.remove_singularities", "ODE.remove_singularities",
              "emitted rhs / monitor_values of both models"]
 ASSUME = ["limits at the removable points are part of the family definition (standard limits, hand-derived) and are themselves cross-checked "
@@ -78,6 +79,13 @@ def tasks(tier, seed):
     for e, pts in SING:
         text = HEADER + f"s = {e}\ndx_dt = -s\ndy_dt = x - y\n"
         out.append({"family": "SING", "id": e, "text": text, "opts": {"points": pts, "expr": e}})
+    # the singular expression is the right-hand side of a state derivative itself (no intermediate carries it)
+    for e, pts in SING:
+        if len(pts) > 1 or any(st != "x" for st, *_ in pts):
+            continue
+        text = HEADER + f"dx_dt = -({e})\ndy_dt = x - y\n"
+        out.append({"family": "SINGDERIV", "id": "deriv:" + e, "text": text,
+                    "opts": {"points": [(st, pt, f"-({lim})") for st, pt, lim in pts], "expr": e, "target": ["rhs", "x"]}})
     out.append({"family": "SING", "id": "multi-component:k*x/(exp(x) - 1)", "text": MULTI, "opts": {"points": [("x", "0", "k")], "expr": "k*x/(exp(x) - 1)"}})
     clamp = "parameters(F=2.0, R=4.0, T=0.5, V=1.0)\nstates(m=0.1)\nvfrt = V*F/(R*T)\ng = vfrt/(exp(vfrt) - 1)\ns = g\ndm_dt = s - m\n"
     full = "parameters(F=2.0, R=4.0, T=0.5)\nstates(V=1.0, m=0.1)\nvfrt = V*F/(R*T)\ng = vfrt/(exp(vfrt) - 1)\ns = g\ndV_dt = -2*s\ndm_dt = s - m\n"
@@ -130,8 +138,9 @@ def work(task):
             prog.eq(label + "|regular", dom, r1[0][b], r0[0][a], gen_eval=ge, ref_eval=re_,
                     what=f"{fn}[{name}] after remove_singularities vs original, on the original's domain")
         # (2) on each singular point: the stated limit
-        if fn == "monitor_values" and "s" in i1 and pts:
-            b = i1["s"]
+        tfn, tname = task["opts"].get("target", ["monitor_values", "s"])
+        if fn == tfn and tname in i1 and pts:
+            b = i1[tname]
             for pt in pts:
                 st, point, lim = pt[0], pt[1], pt[2]
                 pv = c.real(Evaluator(c, m).ev(parse_expr(point)))
@@ -142,8 +151,8 @@ def work(task):
                 except RefError as e:
                     prog.skip(f"limit|{st}={point}", str(e))
                     continue
-                label = f"numpy|monitor_values|s|at-{st}={point}"
-                ge = (lambda inputs, b=b: v1.concrete("monitor_values", inputs)[b])
+                label = f"numpy|{tfn}|{tname}|at-{st}={point}"
+                ge = (lambda inputs, b=b, tfn=tfn: v1.concrete(tfn, inputs)[b])
                 re_ = checks.ref_eval_factory(m, lim_ast)
                 assume = []
                 if len(pt) > 3:   # definedness of the parts of the expression that are not singular there
